@@ -33,6 +33,19 @@ def scenarios(tier):
         'S3_success_and_failure_one_new_dir': dict(threads=[[bf('d/a')], [bf('d/b', 'ra')]]),
         'S3b_two_failures': dict(threads=[[bf('d/e/a', 'ra')], [bf('d/b', 'rb')]]),
         'S3c_two_failures_two_levels_deep': dict(threads=[[bf('d/e/a', 'ra')], [bf('d/e/b', 'rb')]]),
+        # queries racing with a failing build: what a query sees while the other thread is in the middle of
+        # its call may differ, but once everything has settled the view must be the sequential one
+        'S15_query_during_failing_build': dict(
+            threads=[[bf('d/e/a', 'ra')], [q('is_dir', 'd/e'), q('list_dir', 'd'), q('exists', 'd/e/a')]],
+            after=[q('is_dir', 'd/e'), q('is_dir', 'd'), q('list_dir', ''), q('walk', '')], transient_queries={'keep': ['0.0']}),
+        'S16_failing_mkdir_beside_a_build': dict(
+            threads=[[bf('d/' + 'L' * 300 + '/a')], [bf('d/b')]],
+            after=[q('is_dir', 'd'), q('list_dir', 'd')]),
+        'S16b_failing_mkdir_beside_a_query': dict(
+            prep=[bf('d/e/z')], prep_mut=[['del', 'd/e/z']],
+            threads=[[bf('d/e/' + 'L' * 300 + '/a')], [q('is_dir', 'd/e'), q('exists', 'd/e/z')]],
+            after=[q('is_dir', 'd/e'), q('is_dir', 'd'), q('list_dir', '')], transient_queries={'keep': ['0.0']}),
+        'S5b_two_outputs_below_a_former_file': dict(prep=[bf('d')], threads=[[bf('d/y')], [bf('d/z')]]),
         'S4_stale_dir_repopulated': dict(prep=[bf('d/a'), bf('d/e/z')], threads=[[bf('d/b')], [bf('d/e/y')]]),
         'S5_file_dir_swap_beside_build': dict(prep=[bf('d/e/z')], threads=[[bf('d/e')], [bf('q/b')]]),
         'S6_builds_and_queries_unrelated': dict(t0=[['w', 'i', 'A'], ['mkdir', 'u'], ['w', 'u/v', 'A']],
